@@ -238,6 +238,13 @@ func (it *indexedMessageIterator) loadChunk(chunkIndex *ChunkIndex) error {
 	}
 
 	compressedChunkLength := chunkIndex.ChunkLength
+	// the chunk record must lie inside the file and hold at least its opcode and length; this
+	// also bounds the read buffer by the file size.
+	chunkEnd, overflow := checkedAdd(chunkIndex.ChunkStartOffset, compressedChunkLength)
+	if overflow || chunkEnd > uint64(it.fileSize) || compressedChunkLength < 9 {
+		return fmt.Errorf("%w: chunk at %d with length %d does not fit in file of size %d",
+			ErrBadOffset, chunkIndex.ChunkStartOffset, compressedChunkLength, it.fileSize)
+	}
 	if uint64(cap(it.recordBuf)) < compressedChunkLength {
 		newCapacity := int(float64(compressedChunkLength) * chunkBufferGrowthMultiple)
 		it.recordBuf = make([]byte, compressedChunkLength, newCapacity)
@@ -267,6 +274,9 @@ func (it *indexedMessageIterator) loadChunk(chunkIndex *ChunkIndex) error {
 	chunkSlot := &it.chunkSlots[chunkSlotIndex]
 	bufSize := parsedChunk.UncompressedSize
 	if uint64(cap(chunkSlot.buf)) < bufSize {
+		if bufSize >= math.MaxInt32 {
+			return fmt.Errorf("failed to allocate chunk buffer: %w", ErrLengthOutOfRange)
+		}
 		chunkSlot.buf = make([]byte, bufSize)
 	} else {
 		chunkSlot.buf = chunkSlot.buf[:bufSize]
@@ -407,7 +417,10 @@ func readRecord(r io.Reader, buf []byte) (OpCode, []byte, error) {
 	opcode := OpCode(buf[0])
 	recordLen := binary.LittleEndian.Uint64(buf[1:])
 	if uint64(cap(buf)) < recordLen {
-		buf = make([]byte, recordLen)
+		buf, err = makeSafe(recordLen)
+		if err != nil {
+			return 0, nil, fmt.Errorf("failed to allocate %d bytes for record: %w", recordLen, err)
+		}
 	} else {
 		buf = buf[:recordLen]
 	}
